@@ -6,7 +6,7 @@ from sa.effects import Effects, _mutable_display
 from .common import analysis
 
 PROP = "C17"
-TECHNIQUE = "whole-program effect (mutation / ownership) analysis: label propagation from public-API parameters, module-level objects, mutable defaults and class attributes to every mutation primitive; census of global/nonlocal, caching decorators and function-attribute stores"
+TECHNIQUE = "whole-program effect (mutation / ownership) analysis: summary-based points-to with allocation sites and per-call-site instantiation, from public-API parameters, module-level objects, mutable defaults and class attributes to every mutation primitive, one run per entry-point group; census of global/nonlocal, caching decorators and function-attribute stores"
 LEVEL_TEXT = (
     "Static non-interference argument: labels are attached to every object a public entry point receives (schema, data, named-schema "
     "dictionary), to every mutable module-level object, mutable default argument and class-level attribute, and propagated through "
